@@ -82,7 +82,12 @@ func (r *c17Run) write(p []byte, needBefore bool) (before, after []byte, ok bool
 	}
 	r.lens = append(r.lens, len(p))
 	step := len(r.lens) - 1
-	pan := c17Write(r.w, p)
+	// the writer passes its own buffer and reuses it as soon as Write has returned: the window must hold a copy
+	q := append([]byte(nil), p...)
+	pan := c17Write(r.w, q)
+	for i := range q {
+		q[i] ^= 0xff
+	}
 	r.hist = append(r.hist, p...)
 	want := c17Suffix(r.hist, r.cap)
 	if r.bits < 0 {
